@@ -425,6 +425,24 @@ def World.macroSend (w : World) (ids : Nat) (m : Msg) : Res (World × Option Exc
       | .throw x => .throw x
       | .oob s => .oob s
 
+/-- `LOG_LEVEL( "name", level) << class << "x"` with a log NAME: the pre-check `discard_by_level( name, level)`
+    (`getLog( name)`: the first log of that name or nullptr, never throws), then `StreamLog( name, …)` - its
+    constructor refuses the empty name ("no destination log name specified") - and, in its destructor,
+    `Logging::log( name, msg)`. -/
+def World.macroSendName (w : World) (name : String) (m : Msg) : Res (World × Option Exc) :=
+  match w.discardByName name m.level with
+  | .oob s => .oob s
+  | .throw x => .throw x
+  | .ok (.threw e) => .ok (w, some e)
+  | .ok (.val true) => .ok (w, none)
+  | .ok (.val false) =>
+    if name = "" then .ok (w, some .runtime_error)
+    else
+      match w.logName name m with
+      | .ok w' => .ok (w', none)
+      | .throw x => .throw x
+      | .oob s => .oob s
+
 /-! ### configuration operations -/
 
 /-- apply `g` to the first element satisfying `p` -/
